@@ -1,3 +1,4 @@
+import Sx.Lemmas.FloatSigned
 import Sx.Lemmas.FloatOps
 /-
   C12 — physical quantities are encoded and decoded within one register step.
@@ -298,6 +299,97 @@ theorem C12_snr (v : UInt8) : F.eq (snrOf v) (.fin ((int8 v : Rat) / 4)) = true 
 
 /-- **C12, FSK RSSI decode.** `-RssiValue / 2` dBm, truncated toward zero, for all 256 values. -/
 theorem C12_fsk_rssi : ∀ v : UInt8, fskRssiOf v = -((v.toNat / 2 : Nat) : Int) := fun _ => rfl
+
+/-- the 16-bit two's-complement reading of the AFC registers -/
+def s16 (n : Nat) : Int := if 32768 ≤ n then (n : Int) - 65536 else n
+
+/-- **C12, frequency error (FSK/OOK).** For every content of RegAfcMsb/RegAfcLsb the value
+    `sx127x_rx_get_frequency_error` returns is within 9/8 Hz of `AFC * Fstep` (two's complement,
+    `Fstep = 32 MHz / 2^19`): two exact sign/step products, one rounded product of at most
+    2·10^6, one truncation. -/
+theorem C12_fsk_frequency_error (raw : UInt32) (h : raw.toNat < 65536) :
+    ∃ v : Int, fskFreqError raw = some v ∧ |(v : Rat) - (s16 raw.toNat : Rat) * (32000000 / 524288)| < 9 / 8 := by
+  unfold fskFreqError
+  simp only
+  rw [fstep_value]
+  by_cases hneg : 32768 ≤ raw.toNat
+  · -- negative reading
+    have hb := (bit15 raw h).mpr hneg
+    simp only [if_pos hb, ofInt_neg_one]
+    have hmag := neg16 raw h hneg
+    have hm0 : 0 < 65536 - raw.toNat := by omega
+    have hm1 : 65536 - raw.toNat ≤ 32768 := by omega
+    obtain ⟨P, _, e2, hP1, hP2, herr⟩ := fstep_mul (65536 - raw.toNat) hm0 hm1
+    have hmul1 : F.mul b32 (F.fin (-1)) (F.fin (32000000 / 524288)) = F.fin (-(32000000 / 524288)) := by
+      show F.round b32 (-1 * (32000000 / 524288)) = _
+      rw [show (-1 : Rat) * (32000000 / 524288) = -(32000000 / 524288) by ring]
+      exact round_neg_fstep
+    rw [hmul1, hmag, ofNat32_exact _ hm0 (by omega)]
+    show ∃ v, F.toSInt 32 (F.round b32 (-(32000000 / 524288) * ((65536 - raw.toNat : Nat) : Rat))) = some v ∧ _
+    rw [e2, toSInt_neg P hP1 hP2]
+    refine ⟨-P.floor, rfl, ?_⟩
+    have hs : (s16 raw.toNat : Rat) = -((65536 - raw.toNat : Nat) : Rat) := by
+      unfold s16; rw [if_pos hneg]; push_cast [Nat.cast_sub (by omega : raw.toNat ≤ 65536)]; ring
+    rw [hs]
+    have hfl1 := Rat.floor_le P
+    have hfl2 := Rat.lt_floor_add_one P
+    push_cast at hfl2
+    have a := abs_le.mp herr
+    rw [abs_lt]
+    push_cast
+    constructor <;> nlinarith [a.1, a.2, hfl1, hfl2]
+  · have hb : ¬(raw &&& 0x8000 ≠ 0) := fun hc => hneg ((bit15 raw h).mp hc)
+    simp only [if_neg hb, ofInt_one]
+    have hmul1 : F.mul b32 (F.fin 1) (F.fin (32000000 / 524288)) = F.fin (32000000 / 524288) := by
+      show F.round b32 (1 * (32000000 / 524288)) = _
+      rw [one_mul]; exact round_fstep
+    rw [hmul1]
+    have hs : (s16 raw.toNat : Rat) = (raw.toNat : Rat) := by unfold s16; rw [if_neg hneg]; push_cast; rfl
+    rw [hs]
+    by_cases hz : raw.toNat = 0
+    · -- zero reading
+      have hr0 : F.round b32 0 = .fin 0 := by
+        unfold F.round rnd
+        simp only [↓reduceIte, lt_self_iff_false]
+        rw [if_neg (not_le.mpr (two_zpow_pos _))]
+      have h0 : F.ofNat b32 raw.toNat = .fin 0 := by rw [hz]; unfold F.ofNat; simpa using hr0
+      rw [h0]
+      refine ⟨0, ?_, by rw [hz]; norm_num⟩
+      show F.toSInt 32 (F.round b32 (32000000 / 524288 * 0)) = some 0
+      rw [mul_zero, hr0]
+      unfold F.toSInt F.truncQ
+      have hf : Rat.floor 0 = 0 := by rw [rfloor_eq]; exact Int.floor_zero
+      simp [hf]
+    · have hm0 : 0 < raw.toNat := Nat.pos_of_ne_zero hz
+      obtain ⟨P, e1, _, hP1, hP2, herr⟩ := fstep_mul raw.toNat hm0 (by omega)
+      rw [ofNat32_exact _ hm0 (by omega)]
+      show ∃ v, F.toSInt 32 (F.round b32 (32000000 / 524288 * (raw.toNat : Rat))) = some v ∧ _
+      rw [e1, toSInt_pos P hP1 hP2]
+      refine ⟨P.floor, rfl, ?_⟩
+      have hfl1 := Rat.floor_le P
+      have hfl2 := Rat.lt_floor_add_one P
+      push_cast at hfl2
+      have a := abs_le.mp herr
+      rw [abs_lt]
+      constructor <;> nlinarith [a.1, a.2, hfl1, hfl2]
+
+
+/-- the single-side receiver bandwidths of the datasheet (FSK column of the RxBw table, Hz) with
+    their register code `RxBwMant << 3 | RxBwExp` -/
+def rxBwTable : List (Nat × UInt8) :=
+  [(2600, 0x17), (3100, 0x0f), (3900, 0x07), (5200, 0x16), (6300, 0x0e), (7800, 0x06),
+   (10400, 0x15), (12500, 0x0d), (15600, 0x05), (20800, 0x14), (25000, 0x0c), (31300, 0x04),
+   (41700, 0x13), (50000, 0x0b), (62500, 0x03), (83300, 0x12), (100000, 0x0a), (125000, 0x02),
+   (166700, 0x11), (200000, 0x09), (250000, 0x01)]
+
+/-- **C12, receiver bandwidth.** For each of the 21 bandwidths of the datasheet table, the value
+    `sx127x_fsk_ook_rx_set_bandwidth` / `…_set_afc_bandwidth` write is the datasheet's register
+    code (nearest-point search in single precision, decided in the kernel) -/
+theorem C12_rx_bandwidth_table :
+    rxBwTable.all (fun p => calculateBwRegister (F.ofNat b32 p.1) == p.2) = true := by decide +kernel
+
+/-- every code of the table is one of the 21 non-reserved ones, each exactly once -/
+theorem C12_rx_bandwidth_codes_distinct : (rxBwTable.map (·.2)).Nodup ∧ rxBwTable.length = 21 := by decide
 
 /-- the constants the conversions use are the datasheet's: RSSI offsets -157 dBm (HF port) and
     -164 dBm (LF port), crystal 32 MHz (as binary32), Fstep = 32 MHz / 2^19 and the
